@@ -46,7 +46,7 @@ def gen(r, tier, i):
     return {'k': r.randint(1, 3), 'nest': r.random() < 0.6, 'deriver': r.random() < 0.4,
             'path': [r.choice(['x', 'y', 'z']) for _ in range(r.randint(0, 3))],
             'ops': ops, 'init_n': r.randint(0, 9), 'host': r.choice(['empty', 'generated']),
-            'override': {'target': r.choice(['p0', 's', 'sub.q']), 'via': r.choice(['composer', 'process', 'merge', 'merge']),
+            'override': {'target': r.choice(['p0', 's', 'sub.q', 'sub2.u', 'sub.h']), 'via': r.choice(['composer', 'process', 'merge', 'merge']),
                          'late': r.random() < 0.5},
             'meta_overlap': r.random() < 0.5, 'shared_schema': r.random() < 0.4, 'own_init': r.random() < 0.25}
 
@@ -82,7 +82,7 @@ def classes():
             return {'S': {'m': states['S']['n'] * 3}}
 
     class C(Composer):
-        defaults = {'k': 2, 'nest': True, 'deriver': False, 'tag': '', 'shared': False, 'own_init': False}
+        defaults = {'k': 2, 'nest': True, 'deriver': False, 'tag': '', 'shared': False, 'own_init': False, 'mixed': False}
 
         def generate_processes(self, config):
             d = {'p%d' % i: P({'inc': i + 1, 'ts': 0.5 * (i + 1), 'shared': config['shared']}) for i in range(config['k'])}
@@ -96,12 +96,16 @@ def classes():
             d = {'s': St(), 't': St()}
             if config['nest']:
                 d['sub2'] = {'u': St()}       # nested steps and flow: every part has nested dictionaries
+                if config.get('mixed'):
+                    d['sub'] = {'h': St()}    # a compartment that holds a process and a step
             return d
 
         def generate_flow(self, config):
             d = {'s': [], 't': [('s',)]}
             if config['nest']:
                 d['sub2'] = {'u': []}
+                if config.get('mixed'):
+                    d['sub'] = {'h': []}
             return d
 
         def generate_topology(self, config):
@@ -110,6 +114,8 @@ def classes():
             if config['nest']:
                 d['sub'] = {'q': {'S': ('..', 'st2')}}
                 d['sub2'] = {'u': {'S': ('..', 'st')}}
+                if config.get('mixed'):
+                    d['sub']['h'] = {'S': ('..', 'st')}
             if config['deriver']:
                 d['drv'] = {'S': ('st3',)}
             return d
@@ -332,8 +338,9 @@ def override_case(V, spec, P, St, C, cfg):
     from vivarium.core.composer import Composite
     target = spec['override']['target']
     via = spec['override']['via']
-    cfg = dict(cfg, nest=True, k=max(2, cfg['k']))
+    cfg = dict(cfg, nest=True, k=max(2, cfg['k']), mixed=(target == 'sub.h'))
     tpath = tuple(target.split('.'))
+    is_step = target in ('s', 'sub2.u', 'sub.h')
     ov = {'S': {'n': {'_default': 42}}}
     nested_ov = ov
     for k in reversed(tpath):
@@ -353,10 +360,10 @@ def override_case(V, spec, P, St, C, cfg):
     else:
         comp = C(cfg).generate()
         # a process-level override: replace the target by an instance built with _schema
-        node = comp['steps'] if target == 's' else comp['processes']
+        node = comp['steps'] if is_step else comp['processes']
         for k in tpath[:-1]:
             node = node[k]
-        node[tpath[-1]] = (St if target == 's' else P)({'_schema': ov, 'inc': 1, 'shared': cfg.get('shared')})
+        node[tpath[-1]] = (St if is_step else P)({'_schema': ov, 'inc': 1, 'shared': cfg.get('shared')})
     found = {}
 
     def walk(d, p=()):
@@ -371,6 +378,21 @@ def override_case(V, spec, P, St, C, cfg):
     V.check('override_reaches_named_only', not wrong and tpath in found,
             lambda: ('schema override for %s (via %s): default of S.n per process (42 = overridden)' % (target, via),
                      {'.'.join(p): d for p, d in found.items()}))
+    # the same composer, configured with the override, generated through a MetaComposer
+    from vivarium.core.composer import MetaComposer
+    found.clear()
+    try:
+        mcomp = MetaComposer(composers=[C(dict(cfg, _schema=nested_ov))]).generate()
+        walk(mcomp['processes'])
+        walk(mcomp['steps'])
+        wrong = {'.'.join(p): d for p, d in found.items() if (d == 42) != (p == tpath)}
+        V.check('override_reaches_named_only', not wrong and tpath in found,
+                lambda: ('schema override for %s configured on a composer held by a MetaComposer: default of S.n per process '
+                         '(42 = overridden)' % target, {'.'.join(p): d for p, d in found.items()}))
+    except Exception as ex:
+        V.check('override_reaches_named_only', False,
+                ('MetaComposer.generate() raised for a composer configured with a _schema naming %s' % target,
+                 type(ex).__name__, str(ex)[:200]))
     # a composer configured with a _schema of its own, generated at two paths; a later override names one of them
     comp2 = C(dict(cfg, _schema={'p0': {'S': {'n': {'_emit': False}}}}))
     full = Composite({})
